@@ -247,7 +247,133 @@ theorem dictSet_fresh (d : Defs) (k : String) (v : BExp) (h : ∀ kv ∈ d, kv.1
 
 /-! ## the compression loop -/
 
-theorem compress_sem (A : List String) (ρ : Env) :
+theorem lookup_map_replace (k : String) (v : BExp) (n : String) : ∀ d : Defs,
+    lookup (d.map (fun kv => if kv.1 == k then (k, v) else kv)) n
+      = if n = k then (if d.any (fun kv => kv.1 == k) then some v else none) else lookup d n
+  | [] => by simp [lookup]
+  | (k', w) :: d => by
+      have ih := lookup_map_replace k v n d
+      by_cases hk : k' = k
+      · subst hk
+        by_cases hn : n = k'
+        · simp [lookup, hn]
+        · simp only [List.map_cons, beq_self_eq_true, if_true, lookup, hn, if_false] at ih ⊢
+          exact ih
+      · have hk' : (k' == k) = false := by simpa using hk
+        by_cases hn : n = k'
+        · have : n ≠ k := fun h => hk (hn ▸ h)
+          simp [lookup, hk', hn, hk]
+        · simp only [List.map_cons, hk', Bool.false_eq_true, if_false, lookup, hn, List.any_cons,
+            Bool.false_or] at ih ⊢
+          exact ih
+
+theorem lookup_append_single (k : String) (v : BExp) (n : String) : ∀ d : Defs,
+    lookup (d ++ [(k, v)]) n
+      = match lookup d n with
+        | some r => some r
+        | none => if n = k then some v else none
+  | [] => by simp [lookup]
+  | (k', w) :: d => by
+      simp only [List.cons_append, lookup]
+      by_cases hn : n = k'
+      · simp [hn]
+      · simp only [hn, if_false]; exact lookup_append_single k v n d
+
+/-- Python `d[k] = v`, read back -/
+theorem lookup_dictSet (d : Defs) (k : String) (v : BExp) (n : String) :
+    lookup (dictSet d k v) n = if n = k then some v else lookup d n := by
+  unfold dictSet
+  by_cases h : d.any (fun kv => kv.1 == k) = true
+  · simp only [h, if_true, lookup_map_replace]
+  · have h' : d.any (fun kv => kv.1 == k) = false := (Bool.not_eq_true _).mp h
+    have hnone : lookup d k = none := by
+      rw [lookup_none_iff]
+      intro kv hkv heq
+      simp only [List.any_eq_false, beq_iff_eq] at h'
+      exact h' kv hkv heq
+    simp only [h', Bool.false_eq_true, if_false, lookup_append_single]
+    by_cases hn : n = k
+    · subst hn; simp [hnone]
+    · simp only [hn, if_false]; cases lookup d n <;> rfl
+
+theorem mem_dictSet (d : Defs) (k : String) (v : BExp) (kv : String × BExp) (h : kv ∈ dictSet d k v) :
+    kv = (k, v) ∨ kv ∈ d := by
+  unfold dictSet at h
+  split at h
+  · obtain ⟨kv', hkv', heq⟩ := List.mem_map.mp h
+    split at heq
+    · exact Or.inl heq.symm
+    · exact Or.inr (heq ▸ hkv')
+  · rcases List.mem_append.mp h with h | h
+    · exact Or.inr h
+    · exact Or.inl (List.mem_singleton.mp h)
+
+theorem compEnv_dictSet (d : Defs) (s : String) (v : BExp) (ρ : Env) :
+    compEnv (lookup (dictSet d s v)) ρ = upd (compEnv (lookup d) ρ) s (v.eval ρ) := by
+  funext n
+  simp only [compEnv, lookup_dictSet, upd]
+  by_cases hn : n = s <;> simp [hn]
+
+/-- **the compression loop, values** – for EVERY definition list (re-binding allowed, no
+well-formedness needed): with one simultaneous replacement per definition the compressed expressions
+evaluate, in `ρ`, to the values the definitions take when run sequentially from the environment
+`d` induces on `ρ` -/
+theorem compress_vals (q : Quirks) (hq : q.compressSequential = false) (ρ : Env) :
+    ∀ (l d : Defs), (compressGo q d l).map (fun se => se.2.eval ρ) = vals (compEnv (lookup d) ρ) l
+  | [], d => by simp [compressGo, vals]
+  | (s, e) :: t, d => by
+      have hs : compressSubst q d e = simSubst d e := by simp [compressSubst, hq]
+      simp only [compressGo, vals, List.map_cons, hs]
+      rw [compress_vals q hq ρ t, compEnv_dictSet, eval_simSubst]
+
+theorem compress_names (q : Quirks) : ∀ (l d : Defs), (compressGo q d l).map (·.1) = l.map (·.1)
+  | [], d => by simp [compressGo]
+  | (s, e) :: t, d => by simp [compressGo, compress_names q t]
+
+/-- **the compression loop, free symbols**: on a closed list the compressed expressions mention
+only base symbols -/
+theorem compress_syms (q : Quirks) (hq : q.compressSequential = false) (A : List String) :
+    ∀ (l d : Defs) (K : List String),
+      Closed A K l →
+      (∀ k ∈ K, lookup d k ≠ none) →
+      (∀ kv ∈ d, ∀ n ∈ kv.2.syms, n ∈ A) →
+      ∀ se ∈ compressGo q d l, ∀ n ∈ se.2.syms, n ∈ A
+  | [], d, K, _, _, _ => by simp [compressGo]
+  | (s, e) :: t, d, K, hcl, hK, hv => by
+      obtain ⟨hes, hclt⟩ := hcl
+      have hs : compressSubst q d e = simSubst d e := by simp [compressSubst, hq]
+      have hsyms : ∀ n ∈ (simSubst d e).syms, n ∈ A := by
+        intro n hn
+        obtain ⟨m, hm, hh⟩ := syms_subst _ e n hn
+        rcases hh with ⟨hnone, rfl⟩ | ⟨r, hsome, hr⟩
+        · rcases hes n hm with hA | hk
+          · exact hA
+          · exact absurd hnone (hK n hk)
+        · exact hv (m, r) (lookup_some_mem _ _ _ hsome) n hr
+      have ih := compress_syms q hq A t (dictSet d s (simSubst d e)) (s :: K) hclt
+        (by
+          intro k hk
+          rw [lookup_dictSet]
+          by_cases hks : k = s
+          · simp [hks]
+          · simp only [hks, if_false]
+            rcases List.mem_cons.mp hk with h | h
+            · exact absurd h hks
+            · exact hK k h)
+        (by
+          intro kv hkv
+          rcases mem_dictSet _ _ _ _ hkv with h | h
+          · subst h; exact hsyms
+          · exact hv kv h)
+      simp only [compressGo, hs, List.mem_cons]
+      rintro se (rfl | hse)
+      · exact hsyms
+      · exact ih se hse
+
+
+/-- the compression loop as it was (`e.subs(d_exp)`, flag `compressSequential` on) is correct on
+single-assignment lists (`Ok`): there no image mentions a key, so sequential = simultaneous -/
+theorem compress_seq_sem (q : Quirks) (hq : q.compressSequential = true) (A : List String) (ρ : Env) :
     ∀ (l : Defs) (d : Defs) (K : List String) (σ : Env),
       Ok A K l →
       (∀ k, k ∈ K ↔ ∃ v, (k, v) ∈ d) →
@@ -255,12 +381,13 @@ theorem compress_sem (A : List String) (ρ : Env) :
       (∀ k ∈ K, k ∉ A) →
       (∀ n ∈ A, σ n = ρ n) →
       (∀ kv ∈ d, σ kv.1 = kv.2.eval ρ) →
-      (compressGo d l).map (fun se => se.2.eval ρ) = vals σ l
-      ∧ (∀ se ∈ compressGo d l, ∀ n ∈ se.2.syms, n ∈ A)
-      ∧ (compressGo d l).map (·.1) = l.map (·.1)
+      (compressGo q d l).map (fun se => se.2.eval ρ) = vals σ l
+      ∧ (∀ se ∈ compressGo q d l, ∀ n ∈ se.2.syms, n ∈ A)
+      ∧ (compressGo q d l).map (·.1) = l.map (·.1)
   | [], d, K, σ, _, _, _, _, _, _ => by simp [compressGo, vals]
   | (s, e) :: t, d, K, σ, hok, hK, hv, hKA, hσA, hσd => by
       obtain ⟨hsA, hsK, hes, hokt⟩ := hok
+      have hcs : compressSubst q d e = seqSubst (sortKeys d) e := by simp [compressSubst, hq]
       have hfree : ∀ kv ∈ sortKeys d, ∀ kv' ∈ sortKeys d, kv'.1 ∉ kv.2.syms := by
         intro kv hkv kv' hkv' hmem
         rw [mem_sortKeys] at hkv hkv'
@@ -294,7 +421,7 @@ theorem compress_sem (A : List String) (ρ : Env) :
             exact absurd rfl (hk (n, v) ((mem_sortKeys _ _).mpr hv'))
       have hds : dictSet d s (seqSubst (sortKeys d) e) = d ++ [(s, seqSubst (sortKeys d) e)] :=
         dictSet_fresh _ _ _ (fun kv hkv heq => hsK ((hK s).mpr ⟨kv.2, by rw [← heq]; exact hkv⟩))
-      have ih := compress_sem A ρ t (d ++ [(s, seqSubst (sortKeys d) e)]) (s :: K)
+      have ih := compress_seq_sem q hq A ρ t (d ++ [(s, seqSubst (sortKeys d) e)]) (s :: K)
         (upd σ s (e.eval σ)) hokt
         (by
           intro k
@@ -330,7 +457,7 @@ theorem compress_sem (A : List String) (ρ : Env) :
           · have : kv.1 ≠ s := fun heq => hsK ((hK s).mpr ⟨kv.2, by rw [← heq]; exact h⟩)
             simp [upd, this, hσd kv h]
           · simp at h; subst h; simp [upd, heval])
-      simp only [compressGo, vals, List.map_cons, List.mem_cons]
+      simp only [compressGo, vals, List.map_cons, List.mem_cons, hcs]
       rw [hds]
       refine ⟨by rw [heval, ih.1], ?_, by rw [ih.2.2]⟩
       rintro se (rfl | hse)
@@ -421,6 +548,20 @@ theorem Ok_renamed (p : String) (A : List String) : ∀ (l : Defs) (K : List Str
         · exact Or.inl (List.mem_map.mpr ⟨m, h, rfl⟩)
         · exact Or.inr (List.mem_map.mpr ⟨m, h, rfl⟩)
 
+theorem Closed_renamed (p : String) (A : List String) : ∀ (l : Defs) (K : List String),
+    Closed A K l → Closed (A.map (pref p)) (K.map (pref p)) (renamed p l)
+  | [], _, _ => by simp [renamed, Closed]
+  | (s, e) :: t, K, ⟨h3, h4⟩ => by
+      have ih := Closed_renamed p A t (s :: K) h4
+      simp only [renamed, List.map_cons, Closed] at ih ⊢
+      refine ⟨?_, ih⟩
+      intro n hn
+      rw [syms_renameSim] at hn
+      obtain ⟨m, hm, rfl⟩ := List.mem_map.mp hn
+      rcases h3 m hm with h | h
+      · exact Or.inl (List.mem_map.mpr ⟨m, h, rfl⟩)
+      · exact Or.inr (List.mem_map.mpr ⟨m, h, rfl⟩)
+
 theorem vals_renamed (p : String) : ∀ (l : Defs) (σ : Env),
     vals σ (renamed p l) = vals (fun n => σ (pref p n)) l
   | [], _ => by simp [renamed, vals]
@@ -464,10 +605,62 @@ theorem vals_eq_run (A : List String) : ∀ (l : Defs) (K : List String) (σ : E
       rw [run_not_def t _ s (fun se hse heq => hfresh se hse (heq ▸ List.mem_cons_self))]
       simp [upd]
 
-theorem vals_congr (A : List String) : ∀ (l : Defs) (K : List String) (σ σ' : Env), Ok A K l →
+theorem Ok_closed (A : List String) : ∀ (l : Defs) (K : List String), Ok A K l → Closed A K l
+  | [], _, _ => by simp [Closed]
+  | (s, e) :: t, K, ⟨_, _, h3, h4⟩ => ⟨h3, Ok_closed A t (s :: K) h4⟩
+
+theorem Ok_names_nodup (A : List String) : ∀ (l : Defs) (K : List String), Ok A K l →
+    (l.map (·.1)).Pairwise (· ≠ ·)
+  | [], _, _ => by simp
+  | (s, e) :: t, K, hok => by
+      have hfresh := Ok_fresh A t (s :: K) hok.2.2.2
+      simp only [List.map_cons, List.pairwise_cons]
+      refine ⟨?_, Ok_names_nodup A t (s :: K) hok.2.2.2⟩
+      intro n hn heq
+      obtain ⟨se, hse, rfl⟩ := List.mem_map.mp hn
+      exact hfresh se hse (heq ▸ List.mem_cons_self)
+
+theorem vals_length : ∀ (l : Defs) (σ : Env), (vals σ l).length = l.length
+  | [], _ => by simp [vals]
+  | (s, e) :: t, σ => by simp [vals, vals_length t]
+
+/-- the values of the definitions from position `j` on are the final values of their names, when no
+name is bound twice from `j` on (earlier definitions may be re-bound freely) -/
+theorem drop_vals_eq_run : ∀ (l : Defs) (σ : Env) (j : Nat),
+    ((l.drop j).map (·.1)).Pairwise (· ≠ ·) →
+    (vals σ l).drop j = (l.drop j).map (fun se => run σ l se.1)
+  | [], _, _, _ => by simp [vals]
+  | (s, e) :: t, σ, 0, h => by
+      simp only [List.drop_zero, List.map_cons, List.pairwise_cons] at h
+      have ih := drop_vals_eq_run t (upd σ s (e.eval σ)) 0 (by simpa using h.2)
+      simp only [List.drop_zero] at ih
+      simp only [List.drop_zero, vals, List.map_cons, run]
+      rw [ih]
+      congr 1
+      rw [run_not_def t _ s (fun se hse heq => h.1 se.1 (List.mem_map.mpr ⟨se, hse, rfl⟩) heq.symm)]
+      simp [upd]
+  | (s, e) :: t, σ, j + 1, h => by
+      simp only [List.drop_succ_cons] at h
+      simp only [vals, List.drop_succ_cons, run]
+      exact drop_vals_eq_run t _ j h
+
+theorem lastN_vals_eq_run (k : Nat) (l : Defs) (σ : Env)
+    (h : ((lastN k l).map (·.1)).Pairwise (· ≠ ·)) :
+    lastN k (vals σ l) = (lastN k l).map (fun se => run σ l se.1) := by
+  unfold lastN at h ⊢
+  split
+  · rename_i hk
+    simp only [hk, if_true] at h
+    simpa using drop_vals_eq_run l σ 0 (by simpa using h)
+  · rename_i hk
+    simp only [hk, if_false] at h
+    rw [vals_length]
+    exact drop_vals_eq_run l σ _ h
+
+theorem vals_congr (A : List String) : ∀ (l : Defs) (K : List String) (σ σ' : Env), Closed A K l →
     (∀ n, n ∈ A ∨ n ∈ K → σ n = σ' n) → vals σ l = vals σ' l
   | [], _, _, _, _, _ => by simp [vals]
-  | (s, e) :: t, K, σ, σ', ⟨_, _, h3, h4⟩, h => by
+  | (s, e) :: t, K, σ, σ', ⟨h3, h4⟩, h => by
       have he : e.eval σ = e.eval σ' := eval_congr _ _ e (fun n hn => h n (h3 n hn))
       simp only [vals]
       rw [he, vals_congr A t (s :: K) (upd σ s (e.eval σ')) (upd σ' s (e.eval σ')) h4]
@@ -601,7 +794,7 @@ theorem call_none_eq (q : Quirks) (hq1 : q.argIndexFromName = false) (hq2 : q.su
     (f : LogicFun) (ords : List (List String)) (actuals : List Actual)
     (hwf : WF f) (hsh : Shaped f.args actuals) :
     callSite q (bindFunction q ords f) actuals =
-      .ok ((lastN f.ret.bitvec.length (compressGo [] (renamed f.name f.exps))).map
+      .ok ((lastN f.ret.bitvec.length (compressGo q [] (renamed f.name f.exps))).map
         (fun se => simSubst (((argBits f).map (pref f.name)).zip (actualBits actuals)) se.2))
     ∧ ((argBits f).map (pref f.name)).length = (actualBits actuals).length := by
   have hlen := Shaped_length _ _ (Shaped_rename f.name _ _ hsh)
